@@ -14,4 +14,8 @@ regen() { # commit check count outname
 regen 4ebc13e C26 300 C26-age-no-override.json C26.expired-share-kept
 regen 9deeb29 C27 40 C27-lease-crawler-resume.json C27.crawler-died
 regen 0fa7692 C27 60 C27-history-not-atomic.json C27.crawler-died
+regen e9c2403 C07 400 C07-readonly-gets-foreign-share.json C07.readonly-gets-new-share
+regen 867d381 C07 3000 C07-writable-peer-dropped.json C07.not-maximal
+regen 732d0ab C46 400 C46-active-segment-not-cleared.json C46.read-hung
+regen 025e36c C46 600 C46-truncated-header-livelock.json C46.livelock
 rm -rf $S
